@@ -17,7 +17,7 @@ def _ref(levels):
     return out
 
 
-def _fill(levels, titles, outline, toc_pos, twice):
+def _fill(levels, titles, outline, toc_pos, twice, relevel=None):
     doc = Document("text")
     body = doc.body
     body.clear()
@@ -35,6 +35,10 @@ def _fill(levels, titles, outline, toc_pos, twice):
         toc.fill(use_default_styles=False)
         if toc.serialize() != first:
             return True, "fill is not idempotent"
+    if relevel is not None:
+        toc.outline_level = relevel
+        toc.fill(use_default_styles=False)
+        outline = relevel
     limit = outline if outline else 10
     kept = [(lv, ti) for lv, ti in zip(levels, titles) if lv <= limit]
     nums = _ref([lv for lv, _ in kept])
@@ -57,3 +61,32 @@ def toc_text(l1, title, outline):
 
 def toc_twice(l1, l2, outline):
     return _fill([1, l1, l2], ["A", "B", "C"], outline, 1, True)
+
+
+def toc_relevel(l1, l2, o2, o1=0, **kw):
+    return _fill([1, l1, l2], ["A", "B", "C"], o1, 1, False, relevel=o2)
+
+
+def tool_outline(l1, l2, title, in_span=False, outline=0, **kw):
+    """the odfdo-headers tool function against the TOC of the same document"""
+    import contextlib
+    import io
+    from odfdo import Span
+    from odfdo.scripts.headers import headers_document
+    depth = outline if outline else 999
+    doc = Document("text")
+    doc.body.clear()
+    levels, titles = [1, l1, l2], ["A", title, "C"]
+    for i, (lv, ti) in enumerate(zip(levels, titles)):
+        if in_span and i == 1:
+            h = Header(lv, "")
+            h.append(Span(ti))
+        else:
+            h = Header(lv, ti)
+        doc.body.append(h)
+    buf = io.StringIO()
+    with contextlib.redirect_stdout(buf):
+        headers_document(doc, depth)
+    kept = [(lv, ti) for lv, ti in zip(levels, titles) if lv <= depth]
+    exp = "".join(n + " " + ti + "\n" for n, (_, ti) in zip(_ref([lv for lv, _ in kept]), kept))
+    return buf.getvalue() != exp, f"tool printed {buf.getvalue()!r}, outline model gives {exp!r}"
